@@ -23,10 +23,21 @@ META = {
     "random parameters) and an independent Fraction oracle that also judges arbitrary doubles (float stream).",
     "note": "Trusted: Lean kernel + {propext, Classical.choice, Quot.sound}; IEEE rounding is not modelled (theorems "
     "over exact rationals, doubles sampled with 1e-9 relative slack, shapes exact); square roots of the "
-    "rotated-resolution decomposition enter as witnesses (numpy.linalg trusted); GCP polynomial fit is an abstract "
-    "function (fit quality sampled, not proved); Geometry/BoundingBox-valued crop regions, to_crs, snap_to, "
-    "enclosing, | and & are outside this property (C08/C16/C11).  Model follows the code after the three fix "
-    "commits of branch fix-C02.",
+    "rotated-resolution decomposition enter as witnesses (numpy.linalg trusted); the GCP polynomial fit is an abstract "
+    "function pair (only its model selection fitKind is modelled; exact reproduction of in-family data is C20's "
+    "poly_fit_exact_*; fit quality otherwise sampled against exact ground truth).  NOT mirrored in the Lean model "
+    "(inventory of the anchor files): geobox.py - from_bbox non-tight / from_geopolygon / _norm_anchor (C08), "
+    "footprint(buffer, other crs) and geographic_extent / map_bounds WITH reprojection, _reproject_resolution, "
+    "qr2sample (quasi-random constants are irrational), project / compute_crop / enclosing for regions in ANOTHER crs "
+    "(pyproj; oracle only), compute_crop errors for stepped slices and >2 entries (index-kind table only), snap_to, "
+    "overlap_roi, |, &, geobox_union/intersection_conservative, pixel_translation, bounding_box_in_pixel_domain (C16), "
+    "to_crs (C11), __eq__/__hash__/__dask_tokenize__ (C19), svg/grid_lines/outline/explore/_ui, compat, from_rio, "
+    "GeoboxTiles (C04/C12); geom.py - BoundingBox.buffered/transform/to_crs/boundary/qr2sample/aoi, shapely polygon "
+    "construction behind polygon_from_transform (vertex list only); gcp.py - GCPMapping numerics (Poly2d.fit "
+    "back-ends, affine_from_pts: abstract P, Q, B), GCPGeoBox.to_crs / from_rio / map_bounds with reprojection, "
+    "__eq__/__hash__; math.py - decompose_rws factors R and W (only the scale diagonal), snap_affine, snap_scale, "
+    "split_translation, Poly2d evaluation, norm_xy, quasi_random_r2 (C20 or unmodelled); affine - rotation from "
+    "degrees (cos/sin are inputs), shear, the identity shortcut of itransform; boundary()'s float32 linspace rounding.",
     "technique": "Lean 4 proof over hand model + differential correspondence with real code",
     "design_ref": "DESIGN.md §4 C02",
 }
